@@ -448,6 +448,45 @@ fn answer_inner(req: &str) -> String {
             }
             join(out)
         }
+        ("ctor", ws) if (2..=7).contains(&ws.len()) => {
+            let Some(w) = u32s(ws) else { return "bad-request".into() };
+            // every public constructor of the size, each read back with to_arr; then the Default value
+            let mut out: Vec<u32> = Vec::new();
+            match w.len() {
+                2 => {
+                    out.extend(Two::from([w[0], w[1]]).to_arr());
+                    out.extend(Two::from(&[w[0], w[1]]).to_arr());
+                    out.extend(Two::new(w[0], w[1]).to_arr());
+                    out.extend(Two::default().to_arr());
+                }
+                3 => {
+                    out.extend(Three::from([w[0], w[1], w[2]]).to_arr());
+                    out.extend(Three([w[0], w[1], w[2]]).to_arr());
+                    out.extend(Three([w[0], w[1], w[2]]).0);
+                    out.extend(Three::default().to_arr());
+                }
+                4 => {
+                    out.extend(Four::from([w[0], w[1], w[2], w[3]]).to_arr());
+                    out.extend(Four::default().to_arr());
+                }
+                5 => {
+                    out.extend(Five::from([w[0], w[1], w[2], w[3], w[4]]).to_arr());
+                    out.extend(Five::new(w[0], w[1], w[2], w[3], w[4]).to_arr());
+                    out.extend(Five::default().to_arr());
+                }
+                6 => {
+                    out.extend(Six::from([w[0], w[1], w[2], w[3], w[4], w[5]]).to_arr());
+                    out.extend(Six::from_1_and_2_and_3(w[0], Two::new(w[1], w[2]), Three::from([w[3], w[4], w[5]])).to_arr());
+                    out.extend(Six::default().to_arr());
+                }
+                _ => {
+                    out.extend(Seven::from([w[0], w[1], w[2], w[3], w[4], w[5], w[6]]).to_arr());
+                    out.extend(Seven::new(Two::from(&[w[0], w[1]]), Five::new(w[2], w[3], w[4], w[5], w[6])).to_arr());
+                    out.extend(Seven::default().to_arr());
+                }
+            }
+            join(out)
+        }
         ("six123", ws) if ws.len() == 6 => {
             let Some(w) = u32s(ws) else { return "bad-request".into() };
             join(Six::from_1_and_2_and_3(w[0], Two::new(w[1], w[2]), Three::from([w[3], w[4], w[5]])).to_arr())
@@ -1000,6 +1039,12 @@ pub fn cases(prop: &str, thorough: bool, seed: u64, c: &mut Cases) {
                     c.emit("hist/same-word-to-every-slot", &format!("hist {n} {} {}", join(&init), ops.join(" ")));
                     let ops: Vec<String> = (0..n).rev().flat_map(|k| [k.to_string(), "0".to_string()]).collect();
                     c.emit("hist/same-word-to-every-slot", &format!("hist {n} {} {}", join(&init), ops.join(" ")));
+                }
+            }
+            for n in 2..=7usize {
+                for k in 0..60 {
+                    let w: Vec<u32> = (0..n).map(|i| if k == 0 { 100 + i as u32 } else if k % 3 == 0 { [0u32, 1, u32::MAX][rng.below(3) as usize] } else { rng.next() as u32 }).collect();
+                    c.emit(&format!("ctor{n}/every-constructor-and-default"), &format!("ctor {}", join(&w)));
                 }
             }
             for _ in 0..200 {
@@ -2331,32 +2376,41 @@ fn sweep_sixseven(prop: &str, seed: u64, thorough: bool) -> Sweep {
         }
     };
     let mut total = Sweep { exhaustive: thorough, ..Default::default() };
-    // all six-card hands, canonical order
+    // all six-card hands: a quarter in deck order, a quarter reversed, half in a per-hand seeded order
+    let ordered = |h: &mut Vec<usize>, rng: &mut Rng| {
+        match rng.below(4) { 0 => {}, 1 => h.reverse(), _ => rng.shuffle(h) }
+    };
     let parts: Vec<Sweep> = par_ranges(47, 47, |lo, hi| {
         let mut s = Sweep::default();
+        let mut rng = Rng::new(seed ^ (lo << 16) ^ 0x66);
         for a in lo as usize..hi as usize {
             for b in a + 1..52 { for c in b + 1..52 { for d in c + 1..52 { for e in d + 1..52 { for f in e + 1..52 {
-                check(&[a, b, c, d, e, f], &mut s);
+                let mut h = vec![a, b, c, d, e, f];
+                ordered(&mut h, &mut rng);
+                check(&h, &mut s);
             } } } } }
         }
         s
     });
     for p in parts { total.merge(p); }
-    total.count("six-card hands (all, canonical order)", 20_358_520);
+    total.count("six-card hands (all; deck order, reversed or a per-hand seeded order)", 20_358_520);
     if thorough {
         let parts: Vec<Sweep> = par_ranges(46 * 52, 46 * 52, |lo, hi| {
             let mut s = Sweep::default();
+            let mut rng = Rng::new(seed ^ (lo << 16) ^ 0x77);
             for ab in lo as usize..hi as usize {
                 let (a, b) = (ab / 52, ab % 52);
                 if b <= a { continue; }
                 for c in b + 1..52 { for d in c + 1..52 { for e in d + 1..52 { for f in e + 1..52 { for g in f + 1..52 {
-                    check(&[a, b, c, d, e, f, g], &mut s);
+                    let mut h = vec![a, b, c, d, e, f, g];
+                    ordered(&mut h, &mut rng);
+                    check(&h, &mut s);
                 } } } } }
             }
             s
         });
         for p in parts { total.merge(p); }
-        total.count("seven-card hands (all, canonical order)", 133_784_560);
+        total.count("seven-card hands (all; deck order, reversed or a per-hand seeded order)", 133_784_560);
     }
     // shape-rich hands in EVERY slot order: six or seven cards holding five, six or seven suited cards in a
     // row (the ace also low): several straight flushes at once, steel wheels, an extending sixth card ...
@@ -2416,7 +2470,7 @@ fn sweep_sixseven(prop: &str, seed: u64, thorough: bool) -> Sweep {
     for p in parts { total.merge(p); }
     total.count("hands with 5/6/7 suited cards in a row (+ extras), every slot order (720 / 5040 each)", n_shaped);
     // seeded hands in seeded slot orders
-    let n_seeded: u64 = if thorough { 20_000_000 } else { 2_000_000 };
+    let n_seeded: u64 = if thorough { 40_000_000 } else if checked_profile { 2_000_000 } else { 8_000_000 };
     let parts: Vec<Sweep> = par_ranges(n_seeded, threads(), |lo, hi| {
         let mut s = Sweep::default();
         let mut rng = Rng::new(seed ^ lo ^ 0x67);
